@@ -58,7 +58,10 @@ FOCUS = ("Prefer changes of these kinds, which have been under-explored so far: 
          "Condition.all / any with names, Tagged(external=(t, c)); (4) the interaction of two features (generics x class options, inheritance x keyword-only x "
          "tuple layout, tagged unions inside containers or as mapping values, custom handlers x tagged unions, exclude x positional layout, numpy arrays x "
          "conditions, datetime / path / pattern types as mapping keys or set elements); (5) error reporting rather than acceptance (the tree or the text is wrong "
-         "while the verdict stays right); (6) the serialisation direction rather than parsing. Read the code you change carefully and make sure the existing 218 tests really still pass.")
+         "while the verdict stays right); (6) the serialisation direction rather than parsing. (7) places repaired recently, where a slip would be easy: ordering of dataclasses (`_make_ord`), `__setattr__` / the set-field record, "
+         "`_annotated_converter`, `errors._show` and the union error node, `util._subscript` / `replace_typevars`, the converter cache key, "
+         "`EnumConverter.into_data`, the `into_data` shortcut for scalars, named tuples in `make_converter`, `UnionConverter.into_data`'s fallback, "
+         "`ConverterHandlers.make`. Read the code you change carefully and make sure the existing 218 tests really still pass.")
 
 
 def used_ideas() -> list:
